@@ -104,6 +104,22 @@ def run(ctx, replay=None):
             e = ev[at - 1]
             ctx.violation("surrogate:%s:%s" % (clause, e.get("q", e.get("e"))), "surrogate history %s: %s at event %d %s" % (h, clause, at, e), {"history": h, "event": e})
 
+    # untrained MulticomponentSurrogate, every query method, keyword and positional call styles: same answer and same backend call as the backend alone
+    pev = D.passthrough_relations()
+    reached_p, rp = T.validate("Relations", [], [pev], "c20_passthrough")
+    ctx.add_tlc(rp, "Relations over the pass-through queries")
+    if rp.violated or reached_p is None:
+        raise MachineryError("Relations failed (pass-through)")
+    npr = sum(1 for e in pev if e["e"] == "rel")
+    ctx.replayed += npr
+    ctx.case("multicomponent-passthrough", nontrivial=npr >= 40, sample={"events": pev[1:3]})
+    if npr < 40 and pev[-1]["e"] != "exception":
+        raise MachineryError("vacuity: pass-through produced %d relations" % npr)
+    if reached_p[0]["l"] != len(pev) + 1:
+        ctx.violation("surrogate-passthrough:trace-not-consumed", "pass-through relations not consumed", {})
+    for f in reached_p[0]["fails"]:
+        ctx.violation("surrogate-passthrough:%s" % f[0], "untrained MulticomponentSurrogate: %s violated at %s (observed %s, stated %s)" % (f[0], f[1], f[2], f[3]), {"fail": f})
+
 
 if __name__ == "__main__":
     main(run, "C20", "model_checking")
